@@ -8,7 +8,7 @@ import collections.abc as abc
 import sys
 
 from . import workload as W
-from .adata import CALL_KINDS, CALL_ONLY, AIter, Events
+from .adata import CALL_KINDS, AIter, Events, call_only
 from .aioloop import GATE_DELAYS
 
 CAPABILITY_TESTS = {"test_sequence"}
@@ -25,7 +25,7 @@ class PEvents(Events):
     def ev(self, kind: str) -> None:
         self.n += 1
         if self.n == self.fault_at and self.exc is not None:
-            if isinstance(self.exc, CALL_ONLY) and kind not in CALL_KINDS:
+            if call_only(self.exc) and kind not in CALL_KINDS:
                 return  # this fault class is only meaningful inside a call
             self.fired = True
             self.fired_kind = kind
